@@ -5,6 +5,11 @@
 (* pd.DataFrame with a date index).  Per carrier ("run") the log holds the encoded result        *)
 (* (out: kind "val" with dim, rows, cols - arrays have no row labels - or kind "exc") and the    *)
 (* argument object re-read after the call (after: rows, cols, dtype, shape).                     *)
+(* nona lines carry the `value` argument as a cell code (o.value; NaN for every spelling of NaN). *)
+(* A line with op = "session" is a history of df_fillna calls on the caller's objects (Fill.tla,  *)
+(* sessions): o.f = the input object, o.ms = the contents of the shared method-list object as the *)
+(* caller wrote it, o.calls = the calls; per carrier and call ("step") the result, the input      *)
+(* object and the shared list re-read after the call, and the object that was passed as input.    *)
 EXTENDS Fill, Batch
 
 IsArr(cr) == cr \in {"arr1", "arr2"}
@@ -12,14 +17,17 @@ DimOf(cr) == IF cr \in {"arr1", "ser"} THEN 1 ELSE 2
 ShapeOf(cr, f) == IF DimOf(cr) = 1 THEN <<NRows(f)>> ELSE <<NRows(f), NCols(f)>>
 ColsOf(F) == {g.cols : g \in F}
 
-Verdict(o) ==
+\* the argument re-read after the call (an array has no labels: its rows are logged as 1..n)
+AfterOK(a, cr, f) == /\ a.rows = (IF IsArr(cr) THEN Idx(NRows(f)) ELSE f.rows)
+                     /\ a.cols = f.cols /\ a.dtype = "float64" /\ a.shape = ShapeOf(cr, f)
+
+CallVerdict(o) ==
     LET f     == o.f
-        want  == IF o.op = "fillna" THEN Fillna(f, o.ms, o.lim) ELSE {NonaFn(f, o.edge)}
-        wantA == IF o.op = "fillna" THEN ColsOf(want) ELSE ColsOf(NonaFnArray(f, o.edge))
+        want  == IF o.op = "fillna" THEN Fillna(f, o.ms, o.lim) ELSE NonaValueOutcomes(f, o.value, o.edge)
+        wantA == IF o.op = "fillna" THEN ColsOf(want) ELSE ColsOf(NonaValueArray(f, o.value, o.edge))
         runs  == o.runs
         RunV(r) ==
-            IF r.after.rows # f.rows \/ r.after.cols # f.cols \/ r.after.dtype # "float64"
-               \/ r.after.shape # ShapeOf(r.carrier, f) THEN "input_modified"
+            IF ~AfterOK(r.after, r.carrier, f) THEN "input_modified"
             ELSE IF r.out.kind = "exc" THEN "raised"
             ELSE IF r.out.dim # DimOf(r.carrier) THEN "result_shape"
             ELSE IF IsArr(r.carrier) THEN (IF r.out.cols \in wantA THEN "" ELSE "array_result")
@@ -32,6 +40,38 @@ Verdict(o) ==
         ELSE IF \E i, j \in 1..Len(runs) : Comparable(runs[i], runs[j]) /\ runs[i].out.cols # runs[j].out.cols
              THEN "array_ne_pandas"
         ELSE ""
+
+\* ---- histories -------------------------------------------------------------------------------
+\* the frame a result object holds (an array has no labels: its rows are numbered afresh)
+OutFrame(out, cr) == IF IsArr(cr) THEN [rows |-> Idx(IF out.cols = <<>> THEN 0 ELSE Len(out.cols[1])), cols |-> out.cols]
+                     ELSE [rows |-> out.rows, cols |-> out.cols]
+SessionVerdict(o) ==
+    LET x  == o.f
+        nc == Len(o.calls)
+        MsOf(cl) == IF cl.obj = "M" THEN o.ms ELSE cl.ms
+        \* the input of step k of run r: the input object, or what the previous call returned
+        InOf(r, k) == IF o.calls[k].src = "x" \/ k = 1 THEN x ELSE OutFrame(r.steps[k - 1].out, r.carrier)
+        StepV(r, k) ==
+            LET cl == o.calls[k]  s == r.steps[k]  g == InOf(r, k)  want == Fillna(g, MsOf(cl), cl.lim) IN
+            IF ~AfterOK(s.after, r.carrier, x) THEN "input_modified"
+            ELSE IF s.m_after # o.ms THEN "method_list_modified"
+            ELSE IF s.inp_after.cols # g.cols \/ (~IsArr(r.carrier) /\ s.inp_after.rows # g.rows) THEN "input_modified"
+            ELSE IF s.out.kind = "exc" THEN "raised"
+            ELSE IF s.out.dim # DimOf(r.carrier) \/ Len(s.out.cols) # NCols(x) THEN "result_shape"
+            ELSE IF IsArr(r.carrier) THEN (IF s.out.cols \in ColsOf(want) THEN "" ELSE "array_result")
+            ELSE IF [rows |-> s.out.rows, cols |-> s.out.cols] \in want THEN "" ELSE "pandas_result"
+        \* the first step of run r that the specification does not explain (later steps build on it and are not judged)
+        FirstBad(r) == LET B == {k \in 1..nc : \A q \in 1..(k - 1) : StepV(r, q) = ""} IN
+                       IF B = {} THEN "" ELSE StepV(r, MaxS(B))
+        bad == SelectSeq(Idx(Len(o.runs)), LAMBDA i : FirstBad(o.runs[i]) # "")
+    IN  IF ~WellFormed(x) \/ Len(o.runs) = 0 \/ nc = 0 \/ \E i \in 1..Len(o.runs) : Len(o.runs[i].steps) # nc
+        THEN "malformed_observation"
+        ELSE IF bad # <<>> THEN FirstBad(o.runs[bad[1]])
+        ELSE IF \E i, j \in 1..Len(o.runs), k \in 1..nc : o.runs[i].steps[k].out.cols # o.runs[j].steps[k].out.cols
+             THEN "array_ne_pandas"
+        ELSE ""
+
+Verdict(o) == IF o.op = "session" THEN SessionVerdict(o) ELSE CallVerdict(o)
 
 Init == BatchInit
 Next == BatchNext(Verdict)
